@@ -602,6 +602,21 @@ func extra8C10(c *Ctx) {
 	if f == nil {
 		return
 	}
+	res := seekPassThrough(c, f)
+	for i, r := range res {
+		c.Check(rule, f.Key()+" seek#"+itoa(i+1)+" passes whence through and corrects a relative offset", r.pos, r.ok, r.why)
+	}
+	c.Expect(rule, "seeks of the wrapped reader in BufferedSeeker.Seek", len(res), 1)
+}
+
+type seekVerdict struct {
+	pos string
+	ok  bool
+	why string
+}
+
+// seekPassThrough judges every Seek of the wrapped reader in BufferedSeeker.Seek (shared by C10-R15 and C05-R11).
+func seekPassThrough(c *Ctx, f *core.Func) (out []seekVerdict) {
 	info := f.Info()
 	g := c.G(f)
 	off, wh := paramAt(f, 0), paramAt(f, 1)
@@ -617,28 +632,60 @@ func extra8C10(c *Ctx) {
 		n++
 		call := h.Node.(*ast.CallExpr)
 		okW := isIdentOf(info, call.Args[1], wh) && len(g.AssignsTo(wh)) == 0
+		// the offset handed on: the parameter itself, or a local that starts as the parameter; every other
+		// assignment to it is the correction by the buffered byte count on the SeekCurrent edge
+		var carrier types.Object = off
 		okO := isIdentOf(info, call.Args[0], off)
-		// every assignment to the offset is the correction by the buffered byte count on the SeekCurrent edge
-		nCorr := 0
-		for _, as := range g.AssignsTo(off) {
-			a, isA := as.Node.(*ast.AssignStmt)
-			good := false
-			if isA && a.Tok == token.SUB_ASSIGN && len(core.CallsTo(info, a.Rhs[0], false, "bufio.Reader.Buffered")) == 1 {
-				for _, at := range g.AtomsAt(as.Loc) {
-					if be, isB := ast.Unparen(at.Expr).(*ast.BinaryExpr); isB && be.Op == token.EQL && at.Val && isIdentOf(info, be.X, wh) && strings.HasSuffix(core.ExprString(be.Y), "SeekCurrent") {
-						good = true
+		if id, isId := ast.Unparen(call.Args[0]).(*ast.Ident); isId && !okO {
+			if v, isV := info.Uses[id].(*types.Var); isV {
+				carrier = v
+				okO = true
+			}
+		}
+		onCurrent := func(loc core.Loc) bool {
+			for _, at := range g.AtomsAt(loc) {
+				if be, isB := ast.Unparen(at.Expr).(*ast.BinaryExpr); isB && be.Op == token.EQL && at.Val {
+					if (isIdentOf(info, be.X, wh) && strings.HasSuffix(core.ExprString(ast.Unparen(be.Y)), "SeekCurrent")) || (isIdentOf(info, be.Y, wh) && strings.HasSuffix(core.ExprString(ast.Unparen(be.X)), "SeekCurrent")) {
+						return true
 					}
 				}
 			}
-			if good && g.Dominates(as.Loc, h.Loc) || good && g.Reaches(as.Loc, h.Loc) {
+			return false
+		}
+		mentionsBuffered := func(e ast.Node) bool {
+			for _, x := range expand(g, e, 2) {
+				if len(core.CallsTo(info, x, false, "bufio.Reader.Buffered")) == 1 {
+					return true
+				}
+			}
+			return false
+		}
+		nCorr := 0
+		for _, as := range g.AssignsTo(carrier) {
+			a, isA := as.Node.(*ast.AssignStmt)
+			if !isA || len(a.Rhs) != 1 {
+				okO = false
+				continue
+			}
+			switch {
+			case carrier != off && isIdentOf(info, a.Rhs[0], off) && len(g.AtomsAt(as.Loc)) == 0:
+				// target := offset
+			case a.Tok == token.SUB_ASSIGN && mentionsBuffered(a.Rhs[0]) && onCurrent(as.Loc):
 				nCorr++
-			} else {
+			case a.Tok == token.ASSIGN && onCurrent(as.Loc):
+				be, isB := ast.Unparen(a.Rhs[0]).(*ast.BinaryExpr)
+				if isB && be.Op == token.SUB && (isIdentOf(info, be.X, off) || isIdentOf(info, be.X, carrier)) && mentionsBuffered(be.Y) {
+					nCorr++
+				} else {
+					okO = false
+				}
+			default:
 				okO = false
 			}
 		}
-		c.Check(rule, f.Key()+" seek#"+itoa(n)+" passes whence through and corrects a relative offset", c.Pos(call), okW && okO && nCorr == 1, "the wrapped reader is given `"+core.ExprString(call.Args[0])+", "+core.ExprString(call.Args[1])+"`: not the caller's whence with the offset corrected by the buffered bytes (and nothing else)")
+		out = append(out, seekVerdict{c.Pos(call), okW && okO && nCorr == 1, "[whence "+map[bool]string{true: "ok", false: "changed"}[okW]+", offset "+map[bool]string{true: "ok", false: "other stores"}[okO]+", corrections "+itoa(nCorr)+"] the wrapped reader is given `"+core.ExprString(call.Args[0])+", "+core.ExprString(call.Args[1])+"`: not the caller's whence with the offset corrected by the buffered bytes (and nothing else)"})
 	}
-	c.Expect(rule, "seeks of the wrapped reader in BufferedSeeker.Seek", n, 1)
+	return out
 }
 
 // ---------------------------------------------------------------------------------- C11
